@@ -12,6 +12,7 @@ Decided here, from the MIR of every float-writer back-end that the configuration
   MPT-truncate   every round-up effect (shared::round_up, the binary mantissa increment) is reached only
                  on paths where round_mode() is Round
 Not decided: digit counts, rounding values, padding and trimming as functions of (value, options)."""
+from rules.core import rvalue_expr
 from rules.core import (guarded, callee_name, last_seg, op_expr, show, strip_casts, expr_calls, enum_paths,
                         AnchorMissing, copy_root)
 
@@ -412,6 +413,118 @@ def rule_binary_round(col, facts):
     col.floor(R, "writer calls fed by truncate_and_round", n, 3)
 
 
+def rule_radix_rounding(col, facts):
+    """Generic-radix writer (radix.rs truncate_and_round), max_significant_digits:
+    UNIT-parity   the tie test needs the parity of the last kept *digit*; the buffer holds ASCII characters and
+                  'A' = 65 is odd while the digit 10 is even: a `& 1` / `% 2` on a buffer byte must go through
+                  char_to_valid_digit_const (for radix <= 10 the character's parity happens to agree)
+    UNIT-zeros    leading zeros of `0.00121` are not significant: every returned digit count other than
+                  "all digits" includes ltrim_char_count over the whole digit range [start, end), on the Truncate
+                  path as well as on the rounding paths."""
+    if "radix" not in facts.config:
+        return
+    f = facts.fn(WF + "radix::truncate_and_round")
+    R = "UNIT-parity"
+    n = 0
+    for i, b in enumerate(f.blocks):
+        if not f.live(i):
+            continue
+        for st in b["s"]:
+            if st[0] != "=" or st[2][0] != "bin":
+                continue
+            op = st[2][1]
+            e = rvalue_expr(f, st[2], 0)
+            parity = (op == "BitAnd" and strip_casts(e[3]) == ("k", 1)) or (op == "Rem" and strip_casts(e[3]) == ("k", 2) and not any(last_seg(c[1]) == "radix" for c in expr_calls(e)) and strip_casts(e[2])[0] != "arg")
+            if not parity:
+                continue
+            x = strip_casts(e[2])
+            if x[0] == "arg":
+                continue                     # radix % 2
+            n += 1
+            decoded = x[0] == "call" and last_seg(x[1]) in ("char_to_valid_digit_const", "char_to_digit_const", "char_to_digit")
+            col.check(R, "radix::truncate_and_round:parity#%d" % n, decoded,
+                      "`%s`: the parity of a buffer byte (an ASCII digit character) is tested without decoding it: for radix > 10 letter digits have the opposite parity ('A' = 65 is odd, the digit 10 is even) and exact ties round to odd" % show(e), f.loc(st[3]))
+    col.floor(R, "parity tests in radix::truncate_and_round", n, 1)
+    R = "UNIT-zeros"
+    rets = []
+    for i, b in enumerate(f.blocks):
+        if not f.live(i):
+            continue
+        for st in b["s"]:
+            if st[0] == "=" and st[1] == [0, []] and st[2][0] == "agg" and len(st[2][2]) == 2:
+                rets.append((i, strip_casts(op_expr(f, st[2][2][0])), st[3]))
+    col.check(R, "anchor", len(rets) >= 3, "only %d tuple results found" % len(rets), f.loc())
+    m = 0
+    for i, e, sp in rets:
+        # `digit_count` = end - start: everything is kept
+        if e[0] == "bin" and e[1] == "Sub" and strip_casts(e[2])[0] == "arg" and strip_casts(e[3])[0] == "arg":
+            continue
+        m += 1
+        zs = [c for c in expr_calls(e) if last_seg(c[1]) == "ltrim_char_count"]
+        ok = bool(zs)
+        whole = False
+        for c in zs:
+            a0 = c[2][0]
+            # the slice argument: buffer[start..end]
+            txt = show(a0)
+            rng = [x for x in expr_calls(a0) if last_seg(x[1]) in ("index", "index_mut")]
+            for r in rng:
+                ag = strip_casts(r[2][1]) if len(r[2]) == 2 else None
+                if ag and ag[0] == "agg" and len(ag[2]) == 2 and strip_casts(ag[2][0])[0] == "arg" and strip_casts(ag[2][1])[0] == "arg":
+                    whole = True
+        col.check(R, "radix::truncate_and_round:result#%d" % m, ok and whole,
+                  "a truncated digit count `%s` is returned %s: leading zeros of a value below 1 are counted as significant digits (`0.00121`, 2 digits, Truncate -> `0.`)" % (show(e), "without adding the leading zeros (ltrim_char_count)" if not ok else "with leading zeros counted only inside a prefix of the digits, not over [start, end)"), f.loc(sp))
+    col.floor(R, "truncated results in radix::truncate_and_round", m, 2)
+
+
+def rule_point_zero_counted(col, facts):
+    """UNIT-dot0: a writer that emits `.0` after an integral value writes one more digit; where the digit
+    count later feeds min_exact_digits (zero padding up to min_significant_digits) it must have been updated on
+    that path, otherwise the padding adds one zero too many (`0.999`, max = min = 2 -> `1.00`)."""
+    R = "UNIT-dot0"
+    from rules.pipeline import reach_from
+    n = 0
+    for f in facts.all_fns():
+        if f.crate != "lexical_write_float" or f.kind == "Closure" or not last_seg(f.short).startswith("write_float_"):
+            continue
+        mins = [(bb, a) for bb, c, a, d, t in f.calls() if callee_name(c) == WF + "shared::min_exact_digits"]
+        if not mins:
+            continue
+        base = f.short.replace(WF, "")
+        # stores of the decimal point: (block, statement index)
+        points = []
+        for i, b in enumerate(f.blocks):
+            if not f.live(i):
+                continue
+            for j, st in enumerate(b["s"]):
+                if st[0] == "=" and st[1][1] and st[2][0] == "use" and st[2][1][0] in ("cp", "mv"):
+                    e = strip_casts(op_expr(f, st[2][1]))
+                    if e[0] == "call" and last_seg(e[1]) == "decimal_point":
+                        points.append((i, j))
+        for mb, a in mins:
+            dc = op_expr(f, a[0])
+            dcl = strip_casts(dc)
+            cnt_local = dcl[1] if dcl[0] in ("var", "arg") else None
+            for i, b in enumerate(f.blocks):
+                if not f.live(i) or (mb not in reach_from(f, i) and i != mb):
+                    continue
+                for j, st in enumerate(b["s"]):
+                    if not (st[0] == "=" and st[1][1] and st[2][0] == "use" and st[2][1][0] == "k" and st[2][1][1].get("v") == 48 and st[2][1][1].get("ty") == "u8"):
+                        continue
+                    # only a `0` written after the decimal point is a fraction digit
+                    if not any((pi == i and pj < j) or (pi != i and i in reach_from(f, pi)) for pi, pj in points):
+                        continue
+                    n += 1
+                    ok = False
+                    if cnt_local is not None:
+                        for bb2, j2, rv2, pr2 in f.defs().get(cnt_local, []):
+                            if (bb2 == i or bb2 in reach_from(f, i)) and (mb in reach_from(f, bb2) or bb2 == mb):
+                                ok = True
+                    col.check(R, "%s:dot-zero#%d" % (base, n), ok,
+                              "a `0` digit is stored after the decimal point on a path to min_exact_digits(%s, ..) without the digit count being updated: min_significant_digits padding then writes one digit more than max_significant_digits allows" % show(dc)[:80], f.loc(st[3]))
+    col.floor(R, "literal `0` digits stored before min_exact_digits", n, 1)
+
+
 def run(col, configs, tier):
     for name, facts in configs.items():
         col.set_config(name)
@@ -420,3 +533,5 @@ def run(col, configs, tier):
         guarded(col, rule_punct, facts)
         guarded(col, rule_truncate, facts)
         guarded(col, rule_binary_round, facts)
+        guarded(col, rule_radix_rounding, facts)
+        guarded(col, rule_point_zero_counted, facts)
